@@ -19,12 +19,13 @@ RULE = ("exhaustive: every ordered pair of strings over {a,b} up to length 5 (qu
         "prefix+middle+suffix with shared affixes and repeated runs, plus a few 100-400 character pairs with little in common (running costs beyond 255). Oracle: reference LCS by dynamic programming; the "
         "script's from-side must spell a, its to-side b, kept characters are pairwise equal and their number equals "
         "LCS(a,b) (so removed=len(a)-LCS, inserted=len(b)-LCS), the same counts are read back from the ANSI rendering. "
-        "Non-trivial: 0 < LCS < min(len a, len b). Distinct by (a,b).")
+        "A sampled case may set the process-wide default printer to quiet (what --quiet selects) and may be preceded, in the same process, by one to three other string comparisons sharing its target, its source or neither (lengths 3-120); {a,b} up to length 4 / 6 is enumerated again under the quiet printer. "
+        "Non-trivial: 0 < LCS < min(len a, len b). Distinct by (a,b,flags).")
 ASSUMPTIONS = [
     "the 1-char/1-char special case (a single Match of cost 1) counts as one removed plus one inserted character",
     "beyond 40 characters only one family is explored: 100-400 character strings with little in common (48 pairs quick / 640 thorough)",
 ]
-SHRINK = {'strings': ['a', 'b']}
+SHRINK = {'strings': ['a', 'b'], 'lists': ['before'], 'enums': {'quiet': False}}
 TECHNIQUE = 'exhaustive enumeration over small alphabets + Hypothesis sampling, against a reference LCS dynamic programme'
 MANIFEST_TEXT = ("Exhaustive comparison with an independent LCS reference for every pair of strings over {a,b} up to length 5/7 "
                  "and {a,b,c} up to 3/5, plus sampled longer strings with shared affixes and runs; both the edit script and "
@@ -74,6 +75,9 @@ def jobs(tier):
     for s in range(NSHARDS):
         js.append({'kind': 'sample', 'n': samp, 'shard': s})
         js.append({'kind': 'long', 'n': 3 if tier == 'quick' else 40, 'shard': s})
+        js.append({'kind': 'history', 'n': 6 if tier == 'quick' else 120, 'shard': s})
+        # the same exhaustive space under the quiet printer (what --quiet / a non-terminal run selects)
+        js.append({'kind': 'enum', 'alpha': 'ab', 'maxlen': 4 if tier == 'quick' else 6, 'shard': s, 'quiet': True})
     return js
 
 
@@ -94,7 +98,44 @@ def sampled_pairs(draw):
         a, b = ma + suf, pre + mb
     else:
         a, b = draw(st.text(alphabet=alpha, max_size=40)), draw(st.text(alphabet=alpha, max_size=40))
-    return {'a': a[:40], 'b': b[:40]}
+    return {'a': a[:40], 'b': b[:40], 'quiet': draw(st.booleans())}
+
+
+def _edit_string(draw, s, alpha, k):
+    cs = list(s)
+    for _ in range(k):
+        op = draw(st.integers(0, 2))
+        pos = draw(st.integers(0, max(0, len(cs) - 1)))
+        if op == 0 and cs:
+            del cs[pos]
+        elif op == 1:
+            cs.insert(pos, draw(st.sampled_from(list(alpha))))
+        elif cs:
+            cs[pos] = draw(st.sampled_from(list(alpha)))
+    return ''.join(cs)
+
+
+@st.composite
+def history_pairs(draw):
+    """(a, b) compared after other string comparisons in the same process that share its target, its source or neither;
+    lengths 3-120 so that both sides of any size threshold are met."""
+    alpha = draw(st.sampled_from(['ab', 'abcd', 'abcdefgh']))
+    n = draw(st.sampled_from([3, 8, 20, 64, 70, 100, 120]))
+    b = draw(st.text(alphabet=alpha, min_size=n, max_size=n))
+    a = _edit_string(draw, b, alpha, draw(st.integers(1, 6)))
+    before = []
+    for _ in range(draw(st.integers(1, 3))):
+        kind = draw(st.integers(0, 3))
+        other = _edit_string(draw, b, alpha, draw(st.integers(1, 12)))
+        if kind == 0:
+            before.append([other, b])       # same target
+        elif kind == 1:
+            before.append([a, other])       # same source
+        elif kind == 2:
+            before.append([b, a])           # the reverse comparison
+        else:
+            before.append([other, _edit_string(draw, other, alpha, 3)])
+    return {'a': a, 'b': b, 'before': before, 'quiet': draw(st.booleans())}
 
 
 @st.composite
@@ -117,12 +158,15 @@ def run_job(job, seed, sink):
     if job['kind'] == 'long':
         hyp_drive(long_pairs(), job['n'], seed, sink)
         return
+    if job['kind'] == 'history':
+        hyp_drive(history_pairs(), job['n'], seed, sink)
+        return
     if job['kind'] == 'enum':
         i = 0
         for a in all_strings(job['alpha'], job['maxlen']):
             for b in all_strings(job['alpha'], job['maxlen']):
                 if i % NSHARDS == job['shard']:
-                    sink({'a': a, 'b': b})
+                    sink({'a': a, 'b': b, 'quiet': True} if job.get('quiet') else {'a': a, 'b': b})
                 i += 1
     else:
         hyp_drive(sampled_pairs(), job['n'], seed, sink)
@@ -167,11 +211,28 @@ def script_counts(a, b):
 
 
 def check(case):
+    old = common.default_printer_quiet()
+    common.set_default_printer_quiet(bool(case.get('quiet')))
+    try:
+        return _check(case)
+    finally:
+        common.set_default_printer_quiet(old)
+
+
+def _check(case):
     out = Outcome()
     a, b = case['a'], case['b']
     if not isinstance(a, str) or not isinstance(b, str):
         out.skipped = 'not-strings'
         return out
+    if case.get('quiet'):
+        out.label('quiet-printer')
+    if case.get('before'):
+        out.label('after-other-comparisons')
+        with guard('earlier comparisons'):
+            for x, y in case['before']:
+                d = StringNode(x).diff(StringNode(y))
+                del d
     ref = lcs(a, b)
     out.nontrivial = 0 < ref < min(len(a), len(b))
     out.label('equal' if a == b else ('disjoint' if ref == 0 else ('subsequence' if ref == min(len(a), len(b)) else 'mixed')))
